@@ -17,7 +17,7 @@ use std::rc::Rc;
 /// generator profiles, from the plainest to everything the interpreter models
 pub fn profiles() -> Vec<(&'static str, GenCfg)> {
     let mut base = GenCfg::core();
-    base.choice_count = false;
+    base.choice_count = true;
     base.plain_choice_text = true;
     base.no_glue_with_tags = true;
     let mut weave = base.clone();
@@ -278,6 +278,11 @@ pub fn check_program(rep: &mut Report, name: &str, p: &Program, count_all: bool,
         for (k, n) in v.seen.iter() {
             rep.count_n(&format!("saw:{k}"), *n);
         }
+        if nsegs > 2 && v.aspect.is_none() {
+            let lines: Vec<&String> = run.recs.iter().filter_map(|r| r.res.as_ref().ok()).collect();
+            rep.sample(json!({"program": name, "choices_taken": run.choices, "lines_compared": lines.len(),
+                "first_lines": lines.iter().take(3).collect::<Vec<_>>(), "visit_counts_compared": names, "verdict": "equal to the reference interpreter"}));
+        }
         if let Some(a) = v.aspect {
             rep.count(&format!("diff:{a}"));
             if let Some(path) = rep.cfg.get("dump") {
@@ -299,12 +304,12 @@ pub fn run(cfg: &Cfg) -> i32 {
         cfg,
         "exploration",
         "case = (generated program, one choice path): the program (an AST drawn by the seeded generator over core Ink: knots, stitches, diverts, weave choices and gathers with once-only/sticky/conditional/fallback/labelled forms and [bracket] text, inline and block conditionals, stopping/cycle/once sequences inline and multi-line, VAR/temp int-bool-string arithmetic, read counts, TURNS_SINCE, tunnels with parameters, functions with return values and text, threads, glue, tags) is rendered to source, compiled with the repository's compiler (alternating count_all_visits) and played with the repository's runtime along every choice path up to the depth/path bounds; each path is compared with an independent source-level reference interpreter (sequential, no look-ahead): text of every line, tags per line, offered choices (text, order), errors/end status, final values of all globals, visit counts of all counted knots and stitches. Non-trivial = a path with at least one choice taken or more than two lines; distinct by (program, path).",
-        cfg.pick(1500, 40000),
+        cfg.pick(1500, 200000),
     );
     let profs = profiles();
-    let nprog = cfg.get_u64("programs", cfg.pick(360, 9600));
-    let depth = cfg.get_u64("depth", cfg.pick(5, 7)) as usize;
-    let max_paths = cfg.get_u64("paths", cfg.pick(40, 150)) as usize;
+    let nprog = cfg.get_u64("programs", cfg.pick(360, 32000));
+    let depth = cfg.get_u64("depth", cfg.pick(5, 8)) as usize;
+    let max_paths = cfg.get_u64("paths", cfg.pick(40, 250)) as usize;
     for i in 0..nprog {
         if !cfg.mine(i) {
             continue;
